@@ -508,6 +508,46 @@ pub fn check_vtype(ctx: &Ctx, kind: Kind, out: &mut Outcome, q: u32, t: u32) {
     finish(ctx, "", acc, found, out, "vtype", &exec, &shrink);
 }
 
+/// C18 over conversions: every user-code call of (conversion, history, drop) is a crash point
+pub fn check_conv_faults(ctx: &Ctx, out: &mut Outcome, q: u32, t: u32) {
+    use crate::conv::*;
+    let th = ctx.tier == Tier::Thorough;
+    let strat = move || conv_strategy(th);
+    let exec = |c: &ConvCase| run_conv_faults(c);
+    let hash_case = |c: &ConvCase| {
+        let mut d = Case { kind: Kind::Lru, cfg: Cfg::simple(1), keys: KeyMode::Tracked, alphabet: 0, ops: vec![] };
+        d.cfg.sketch_seed = Some(fnv64(serde_json::to_string(c).unwrap_or_default().as_bytes()));
+        d
+    };
+    journal_for(ctx, "convf");
+    let (acc, found) = run_engine(&strat, &exec, &hash_case, &ctx.id, ctx.seed, 0x7e0, ctx.workers, ctx.cases(q, t), &ctx.known);
+    let shrink = |c: &ConvCase, f: &dyn Fn(&ConvCase) -> bool| -> ConvCase {
+        let mut cur = c.clone();
+        let mut i = 0;
+        while i < cur.ops.len() {
+            let mut x = cur.clone();
+            x.ops.remove(i);
+            if f(&x) {
+                cur = x;
+            } else {
+                i += 1;
+            }
+        }
+        let mut i = 0;
+        while i < cur.items.len() {
+            let mut x = cur.clone();
+            x.items.remove(i);
+            if f(&x) {
+                cur = x;
+            } else {
+                i += 1;
+            }
+        }
+        cur
+    };
+    finish(ctx, "", acc, found, out, "convf", &exec, &shrink);
+}
+
 pub fn check_sampled(ctx: &Ctx, prop: E7Prop, out: &mut Outcome, q: u32, t: u32, rule: &str) {
     let th = ctx.tier == Tier::Thorough;
     let strat = move || scase_strategy(th);
